@@ -1,6 +1,8 @@
 package vuego
 
 import (
+	"strings"
+
 	"golang.org/x/net/html"
 )
 
@@ -15,6 +17,7 @@ import (
 //verif:harness VerifC01_Mustache quick.maxpaths=30000 thorough.maxpaths=200000 timeout=1500
 //verif:harness VerifC01_Neighbourhood quick.maxpaths=30000 thorough.maxpaths=200000 timeout=1500
 //verif:harness VerifC01_AttrKernel quick.maxpaths=30000 thorough.maxpaths=200000 timeout=1500
+//verif:harness VerifC01_RawTextParents quick.maxpaths=30000 thorough.maxpaths=200000 timeout=1500
 
 const zzC01Hostile = "<>&\"';#{}/ a"
 
@@ -39,12 +42,20 @@ var zzC01Sinks = []string{
 	/* 17 */ `<p v-show="no" :data-x="val" data-y="{{ val }}">s</p>`,
 	/* 18 */ `<q v-if="no">n</q><q v-else-if="ok" :title="val" class="{{ w }}">{{ val }}</q>`,
 	/* 19 */ `<ul><li v-for="(i, it) in items" v-if="i == 0" :title="it">{{ it }}</li></ul>`,
+	/* 20 */ `<div><template include="t.vuego" :p="val" q="{{ val }}"></template></div>`,
+	/* 21 */ `<div><template include="s2.vuego"><template include="c.vuego" :p="val" q="{{ val }}"></template></template></div>`,
+	/* 22 */ `<div><template include="s2.vuego"><b :title="val">{{ val }}</b></template></div>`,
+	/* 23 */ `<template include="c.vuego" :p="val" q="{{ val }}"></template>`,
 }
 
 func zzC01FS() *zzFS {
 	return newZZFS(map[string]string{
 		"c.vuego": `<span :title="p">{{ p }} {{ q }}</span>`,
 		"s.vuego": `<section><slot :item="val"></slot></section>`,
+		// a component whose root is a <template> element
+		"t.vuego": `<template><span :title="p">{{ p }} {{ q }}</span></template>`,
+		// a component that uses its default slot twice
+		"s2.vuego": `<section><slot></slot><hr><slot></slot></section>`,
 	})
 }
 
@@ -133,4 +144,34 @@ func VerifC01_AttrKernel() {
 	zzNote("out", out)
 	zzAssert(zzCountByte(out, '"') == 2, "C01.attr.breakout")
 	zzAssert(zzCountByte(out, '<') == 0, "C01.attr.lt")
+}
+
+// VerifC01_RawTextParents: a value interpolated inside an element whose
+// content the HTML5 tokenizer reads as raw text or RCDATA (everything but
+// script and style, which the statement exempts) cannot end that element:
+// the only thing that ends raw text is the element's own end tag, so the
+// output must contain exactly as many of them as with a harmless word
+// (lower-case spellings; the tokenizer automaton of the other harnesses does
+// not model raw text, so it is not used here).
+func VerifC01_RawTextParents() {
+	parents := []string{"xmp", "title", "iframe", "noembed", "textarea", "noscript", "noframes"}
+	k := zzChoice("parent", zzBound("parents", 5, len(parents)))
+	tag := parents[k]
+	form := zzChoice("form", 2)
+	val := zzStringIn("val", len(tag)+3, "</> "+tag)
+	tpl := "<div><" + tag + ">{{ val }}</" + tag + "><i>after</i></div>"
+	if form == 1 {
+		tpl = "<div><" + tag + ` v-text="val"></` + tag + "><i>after</i></div>"
+	}
+	render := func(v string) string {
+		out, err := zzRender(NewFS(nil), tpl, map[string]any{"val": v})
+		zzAssert(err == nil, "C01.rawtext.render-error")
+		return out
+	}
+	base := render("word")
+	out := render(val)
+	zzNote("template", tpl)
+	zzNote("out", out)
+	end := "</" + tag
+	zzAssert(strings.Count(out, end) == strings.Count(base, end), "C01.rawtext.value-ends-the-element")
 }
